@@ -72,7 +72,7 @@ Definition millisecond_of (ms : Z) : Z := ms mod 1000.
 (* the 12-hour clock the property demands: 12, 1 .. 11, 12, 1 .. 11 *)
 Definition hour12_demanded (h : Z) : Z := if h mod 12 =? 0 then 12 else h mod 12.
 
-(** * Time-zone argument: a sign and exactly four decimal digits HHMM *)
+(** * Time-zone argument: a sign and exactly four decimal digits HHMM, HH <= 23, MM <= 59 *)
 Definition is_digit (c : ascii) : bool :=
   let n := Z.of_N (N_of_ascii c) in (48 <=? n) && (n <=? 57).
 Definition digit_val (c : ascii) : Z := Z.of_N (N_of_ascii c) - 48.
@@ -82,6 +82,7 @@ Definition tz_denotes (s : string) (off : Z) : Prop :=
     s = String sg (String h1 (String h2 (String m1 (String m2 EmptyString)))) /\
     (sg = "+"%char \/ sg = "-"%char) /\
     is_digit h1 = true /\ is_digit h2 = true /\ is_digit m1 = true /\ is_digit m2 = true /\
+    10 * digit_val h1 + digit_val h2 <= 23 /\ 10 * digit_val m1 + digit_val m2 <= 59 /\
     off = (if Ascii.eqb sg "-" then -1 else 1) *
           (60 * (60 * (10 * digit_val h1 + digit_val h2) + (10 * digit_val m1 + digit_val m2))).
 
